@@ -54,6 +54,7 @@ Finish ==
   /\ Chk("C16_ModeKept", R.final.target.mode = R.origMode)
   /\ Chk("C16_TmpGone", R.killed \/ R.final.tmp.content = "absent" \/ (R.stale # 0 /\ ~\E k \in 1..Len(R.ev) : R.ev[k].obj = "tmp"))       \* a stale .tmp of an earlier crash, never touched
   /\ Chk("C16_BackupFaithful", ~R.backup \/ R.final.target.content # "fixed" \/ (R.final.bak.content = "orig" /\ R.final.bak.mode = R.origMode))
+  /\ Chk("C16_OtherNameWhole", R.otherName \in {"none", "orig", "fixed"})       \* a second hard link never holds a truncated / mixed text either
   /\ Chk("C16_FixedWhenNoFault", ~(R.expectWrite /\ ~R.faulted /\ ~R.killed) \/ R.final.target.content = "fixed")
   /\ Chk("C04_CleanUntouched", ~R.clean \/ (R.final.target.content = "orig" /\ R.sameInode /\ R.sameMtime))
   /\ PrintT(<<"DONE", R.id, i>>)
